@@ -112,12 +112,18 @@ def gen_calls(ctx):
         calls.append(('objid-defaults', c))
     # boundaries and far-out values, one field at a time
     far = [-1, -2 ** 40, 2 ** 31, 2 ** 40, 2 ** 62 - 1, -2 ** 62]
+    # Python ints that no 64-bit type holds (scalar convention only: they cannot be put into an integer array)
+    beyond = [2 ** 63, -2 ** 63 - 1, 2 ** 64, 2 ** 70, -2 ** 70]
     for i, (lo, hi) in enumerate(OBJ_RANGES):
         for x in [lo - 1, lo, hi, hi + 1] + far:
             for rep in range(ctx.n(1, 4)):
                 v = rand_in(rng, OBJ_RANGES)
                 v[i] = x
                 calls.append(('objid-boundary', objid_call(v, 'scalar' if rep % 2 == 0 else 'array')))
+        for x in beyond:
+            v = rand_in(rng, OBJ_RANGES)
+            v[i] = x
+            calls.append(('objid-beyond-64-bit', objid_call(v, 'scalar')))
     # multi-row arrays, consistent and inconsistent lengths
     for k in range(ctx.n(40, 400)):
         n = rng.randint(2, 5)
@@ -179,6 +185,11 @@ def gen_calls(ctx):
                 v[i] = x
                 li = 'line' if i == 4 else ('index' if i == 5 else None)
                 calls.append(('spec-boundary', spec_call(v, 'scalar' if rep % 2 == 0 else 'array', 'int', li)))
+        for x in beyond:
+            v = rand_in(rng, SPEC_RANGES)
+            v[i] = x
+            li = 'line' if i == 4 else ('index' if i == 5 else None)
+            calls.append(('spec-beyond-64-bit', spec_call(v, 'scalar', 'int', li)))
     # vN_M_P strings at the edges of the documented N, M, P ranges
     for N in (5, 6):
         for M in (0, 1, 63, 64, 99):
